@@ -99,8 +99,10 @@ func Skeleton() *DB {
 		{Name: "t", Cols: []Col{{Name: "id", Type: "integer", NotNull: true}, {Name: "a", Type: "integer"}, {Name: "b", Type: "text"}},
 			// id is always unique so that foreign keys may point at it whatever the primary key is.
 			Idx: []Idx{{Name: "t_id_uq", Unique: true, Parts: []Part{{Col: "id"}}}}},
-		{Name: "u", Cols: []Col{{Name: "id", Type: "integer", NotNull: true}, {Name: "v", Type: "text"}}, PK: []string{"id"},
-			Idx: []Idx{{Name: "u_v", Parts: []Part{{Col: "v"}}}}},
+		// the bystander holds child rows of t: whatever happens to t must not cascade into it.
+		{Name: "u", Cols: []Col{{Name: "id", Type: "integer", NotNull: true}, {Name: "v", Type: "text"}, {Name: "t_id", Type: "integer"}}, PK: []string{"id"},
+			Idx: []Idx{{Name: "u_v", Parts: []Part{{Col: "v"}}}},
+			FKs: []FK{fkTo("fk_u_t", []string{"t_id"}, "t", []string{"id"}, "", "CASCADE")}},
 	}}
 }
 
@@ -237,6 +239,11 @@ var Features = []Feature{
 			Cols: []Col{{Name: "id", Type: "integer", NotNull: true}, {Name: "code", Type: "text", NotNull: true}},
 			PK:   []string{"id"},
 			Idx:  []Idx{{Name: "y_code", Unique: true, Parts: []Part{{Col: "code"}}, Inline: true}}})
+	}},
+	// an in-place change of a table that sorts after t (so a plan can rebuild t and then alter u).
+	{Name: "u_idx_t_id", Apply: func(d *DB) {
+		u := d.Table("u")
+		u.Idx = append(u.Idx, Idx{Name: "u_t_id", Parts: []Part{{Col: "t_id"}}})
 	}},
 	{Name: "without_rowid", NeedsPK: true, Apply: func(d *DB) { d.Table("t").WithoutRowID = true }},
 	{Name: "strict", Apply: func(d *DB) { d.Table("t").Strict = true }},
